@@ -19,7 +19,7 @@ HARNESSES = [
     # the compiler's __BYTE_ORDER__ for this TU only (the branch itself is endian-independent)
     H('gf_vect_mul_init_bytewise', ['C12'], 'ec/gf_scalar.c', EC, enforce='gf_vect_mul_init',
       entry='h_gf_vect_mul_init', tier='thorough', defines=['__BYTE_ORDER__=__ORDER_BIG_ENDIAN__'],
-      timeout=600, expect=['postcondition']),
+      timeout=600, expect=['postcondition'], replay=('gf.c', 'gf_vect_mul_init')),
     H('gf_table_gfni', ['C12'], 'ec/gf_scalar.c', EC, timeout=600, expect=['assertion'], min_obligations=1),
     H('spec_field_axioms', ['C12'], 'ec/gf_scalar.c', EC, timeout=600, expect=['assertion'], min_obligations=4),
 ]
